@@ -65,8 +65,13 @@ func C10(ctx *Ctx) {
 			}
 			o := ip.Ops
 			B := o.Shl(bank, absint.NewConst(32, 15, false))
-			wantStart := o.Convert(o.Add(B, a), 64, false, true).Lin.Key()
-			wantEnd := o.Convert(o.Add(B, absint.NewConst(32, 0x8000, false)), 64, false, true).Lin.Key()
+			wantStartV := o.Convert(o.Add(B, a), 64, false, true)
+			wantEndV := o.Convert(o.Add(B, absint.NewConst(32, 0x8000, false)), 64, false, true)
+			wantStart, wantEnd := wantStartV.Lin.Key(), wantEndV.Lin.Key()
+			// equal terms, or - for another spelling of the same arithmetic - equal provenance of every bit
+			same := func(v, want *absint.Int) bool {
+				return v != nil && (v.Lin.Key() == want.Lin.Key() || absint.SameBits(v, want))
+			}
 			if !high {
 				// must be the always-error object
 				ok := false
@@ -90,12 +95,12 @@ func C10(ctx *Ctx) {
 					R.Fail("window", "BusReader:slice", pos, "the reader is not built over a slice of Contents")
 				default:
 					s, e := readerSlice.Off.Lin.Key(), o.Add(readerSlice.Off, readerSlice.Len).Lin.Key()
-					if s != wantStart {
+					if !same(readerSlice.Off, wantStartV) {
 						R.Fail("window", "BusReader:start", pos, fmt.Sprintf("window starts at %s, want %s", s, wantStart))
 					} else {
 						R.Pass("window", "BusReader:start", pos, "bank<<15 + (offset-$8000)")
 					}
-					if e != wantEnd {
+					if !same(o.Add(readerSlice.Off, readerSlice.Len), wantEndV) {
 						R.Fail("window", "BusReader:end", pos, fmt.Sprintf("window ends (exclusive) at %s, want %s: the last byte(s) of the bank cannot be read", e, wantEnd))
 					} else {
 						R.Pass("window", "BusReader:end", pos, "bank<<15 + $8000")
@@ -118,24 +123,32 @@ func C10(ctx *Ctx) {
 				R.Fail("window", "BusWriter:roles", pos, "cannot resolve the writer's start / end / progress fields from its Write method")
 				continue
 			}
-			get := func(i int) string {
+			getV := func(i int) *absint.Int {
 				v, _ := ip.Load(out, fieldPtr(wp, wt.Field(i).Type(), i), wt.Field(i).Type()).(*absint.Int)
 				if v == nil {
-					return "?"
+					return nil
 				}
-				return o.Convert(v, 64, false, true).Lin.Key()
+				return o.Convert(v, 64, false, true)
 			}
-			if s := get(roles.start); s != wantStart {
+			get := func(i int) string {
+				if v := getV(i); v != nil {
+					return v.Lin.Key()
+				}
+				return "?"
+			}
+			if s := get(roles.start); !same(getV(roles.start), wantStartV) {
 				R.Fail("window", "BusWriter:start", pos, fmt.Sprintf("writer starts at %s, want %s", s, wantStart))
 			} else {
 				R.Pass("window", "BusWriter:start", pos, "bank<<15 + (offset-$8000)")
 			}
-			if e := get(roles.end); e != wantEnd {
+			if e := get(roles.end); !same(getV(roles.end), wantEndV) {
 				R.Fail("window", "BusWriter:end", pos, fmt.Sprintf("writer window ends (exclusive) at %s, want %s: the last byte(s) of the bank cannot be written", e, wantEnd))
 			} else {
 				R.Pass("window", "BusWriter:end", pos, "bank<<15 + $8000")
 			}
-			if p := get(roles.prog); p != "0" {
+			if roles.start == roles.prog {
+				R.Pass("window", "BusWriter:progress", pos, "the writer keeps one cursor (start + progress); it starts at the window start")
+			} else if p := get(roles.prog); p != "0" {
 				R.Fail("window", "BusWriter:progress", pos, "the writer does not start with zero progress: "+p)
 			} else {
 				R.Pass("window", "BusWriter:progress", pos, "0")
@@ -186,6 +199,18 @@ func writerRoles(ctx *Ctx, t types.Type) *wRoles {
 	for _, d := range absint.LinDeps(end.Lin) {
 		if i := fieldIndex(st, strings.TrimPrefix(d.Key, "w.")); i >= 0 && i != r.prog && i != r.start {
 			r.end = i
+		}
+	}
+	if r.start < 0 && r.prog >= 0 {
+		// cursor form: one field holds start+progress, the position of the next byte
+		only := true
+		for _, d := range absint.LinDeps(dst.Off.Lin) {
+			if i := fieldIndex(st, strings.TrimPrefix(d.Key, "w.")); i != r.prog {
+				only = false
+			}
+		}
+		if only {
+			r.start = r.prog
 		}
 	}
 	if r.start < 0 || r.end < 0 || r.prog < 0 || r.rom < 0 {
@@ -268,7 +293,11 @@ func checkWriterWrite(ctx *Ctx, t types.Type, roles *wRoles) {
 	start, _ := run.entry[roles.start].(*absint.Int)
 	end, _ := run.entry[roles.end].(*absint.Int)
 	prog, _ := run.entry[roles.prog].(*absint.Int)
-	wantOff := o.Convert(o.Add(prog, start), 64, false, true).Lin.Key()
+	cursor := o.Add(prog, start)
+	if roles.start == roles.prog {
+		cursor = prog // one field holds start+progress
+	}
+	wantOff := o.Convert(cursor, 64, false, true).Lin.Key()
 	wantEnd := o.Convert(end, 64, false, true).Lin.Key()
 	if !strings.Contains(absint.ValKey(&dst.Base), "Contents") || dst.Off.Lin.Key() != wantOff || o.Add(dst.Off, dst.Len).Lin.Key() != wantEnd {
 		R.Fail("window", "Write:destination", pos, fmt.Sprintf("copies into %s, want Contents[start+o : end)", absint.ValKey(dst)))
@@ -281,7 +310,7 @@ func checkWriterWrite(ctx *Ctx, t types.Type, roles *wRoles) {
 		R.Pass("io-contract", "Write:source", pos, "copies from the whole payload")
 	}
 	// the guard in force at the copy must bound len(p) by the remaining window
-	remaining := o.Sub(end, o.Add(prog, start)) // uint32 arithmetic as in the writer
+	remaining := o.Sub(end, cursor) // uint32 arithmetic as in the writer
 	remKey := remaining.Lin.Key()
 	lenKeys := map[string]bool{run.plen.Lin.Key(): true, o.Convert(run.plen, 32, true, false).Lin.Key(): true}
 	implied := false
